@@ -15,7 +15,7 @@ IDLE_DEATH = 'die_idle'     # answers normally, then the idle worker is killed; 
 EXPECTED = {'equal': 'Equal', 'different': 'Different', 'player_raises': 'EqualizerFailure', 'extractor_raises': 'EqualizerFailure',
             'comparator_raises': 'EqualizerFailure', 'bare_status': 'Equal', 'spawn_child': 'Equal', 'exit': 'EqualizerFailure', 'hang': 'EqualizerFailure',
             'late': 'EqualizerFailure', 'hang_sigterm_ignored': 'EqualizerFailure', 'die_idle': 'Equal', 'dict_diff': 'Different',
-            'start_async_cassette': 'Equal', 'unpicklable_answer': 'EqualizerFailure'}
+            'start_async_cassette': 'Equal', 'unpicklable_answer': 'EqualizerFailure', 'error_result': 'Different'}
 
 
 def expected_duration(case):
